@@ -177,15 +177,16 @@ func harnesses(r *fw.Run) []fw.HarnessSpec {
 
 	// ---- waiting under the scheduler ----------------------------------------------------------------
 	type scenario struct {
-		name     string
-		updaters [][]uint32 // per updater thread: the sequence of head seqnos it reports on the best connection
-		gaps     time.Duration
-		waiters  []uint32        // seqno each waiter waits for
-		cancel   bool            // a canceller thread cancels waiter 0
-		best0    bool            // a BestMasterchainClient caller on a head-0 connection
-		sw       bool            // a thread switches the best connection to conn 1 and reports a head there
-		delays   []time.Duration // waiter i starts after delays[i]
-		timeouts []time.Duration // per waiter: its timeout (default 1 s)
+		name        string
+		updaters    [][]uint32 // per updater thread: the sequence of head seqnos it reports on the best connection
+		gaps        time.Duration
+		waiters     []uint32        // seqno each waiter waits for
+		cancel      bool            // a canceller thread cancels waiter 0
+		best0       bool            // a BestMasterchainClient caller on a head-0 connection
+		sw          bool            // a thread switches the best connection to conn 1 and reports a head there
+		delays      []time.Duration // waiter i starts after delays[i]
+		timeouts    []time.Duration // per waiter: its timeout (default 1 s)
+		updaterConn []int           // per updater: the connection it reports heads on (default 0, the best one)
 	}
 	scen := []scenario{
 		{name: "one-waiter-reached", updaters: [][]uint32{{1, 2, 3}}, waiters: []uint32{2}},
@@ -205,12 +206,15 @@ func harnesses(r *fw.Run) []fw.HarnessSpec {
 	// a waiter gives up while another one is still waiting, then a newcomer registers: the one still waiting is woken by its head
 	scen = append(scen, scenario{name: "waiter-leaves-newcomer-arrives", updaters: [][]uint32{{5}}, gaps: 800 * time.Millisecond, waiters: []uint32{9, 5, 9},
 		delays: []time.Duration{0, 0, 500 * time.Millisecond}, timeouts: []time.Duration{300 * time.Millisecond, 2 * time.Second, time.Second}})
+	// the best connection reports the wanted head while another connection reports a higher one
+	scen = append(scen, scenario{name: "other-connection-ahead", updaters: [][]uint32{{5}, {9}}, updaterConn: []int{0, 1}, waiters: []uint32{5}})
+	scen = append(scen, scenario{name: "other-connection-ahead-first", updaters: [][]uint32{{9, 10}, {4, 5}}, updaterConn: []int{1, 0}, waiters: []uint32{5}})
 	if !r.Quick() {
 		scen = append(scen, scenario{name: "two-waiters-timeout", updaters: [][]uint32{{1, 2, 3}}, waiters: []uint32{9, 8}})
 	}
 	// deviation bound (delay-bounded scheduling: every departure from the deterministic base scheduler,
 	// every non-first ready select case and every timer-first deviation costs one)
-	bounds := map[string]int{"two-updaters-two-waiters": 2, "channel-filling": 2, "channel-filling-last-head-wanted": 2, "two-waiters-timeout": 2, "satisfied-caller-next-to-pending-waiter": 2, "waiter-leaves-newcomer-arrives": 2}
+	bounds := map[string]int{"two-updaters-two-waiters": 2, "channel-filling": 2, "channel-filling-last-head-wanted": 2, "two-waiters-timeout": 2, "satisfied-caller-next-to-pending-waiter": 2, "waiter-leaves-newcomer-arrives": 2, "other-connection-ahead": 2, "other-connection-ahead-first": 2}
 	for _, modeB := range []bool{false, true} {
 		for _, sc := range scen {
 			modeB, sc := modeB, sc
@@ -237,8 +241,12 @@ func harnesses(r *fw.Run) []fw.HarnessSpec {
 								if sc.gaps > 0 {
 									vtimes.Sleep(sc.gaps)
 								}
-								conns[0].SetMasterHead(ton.BlockIDExt{BlockID: ton.BlockID{Seqno: q}})
-								rec.heads = append(rec.heads, headEvent{0, q, s.Now()})
+								ci := 0
+								if ui < len(sc.updaterConn) {
+									ci = sc.updaterConn[ui]
+								}
+								conns[ci].SetMasterHead(ton.BlockIDExt{BlockID: ton.BlockID{Seqno: q}})
+								rec.heads = append(rec.heads, headEvent{ci, q, s.Now()})
 							}
 						})
 					}
